@@ -179,7 +179,10 @@ package rockredis
 // ---- list element keys: [ListType][be16 len(table)][table]':'[be16 len(key)][key][be64 seq] ----
 //@ spec be64(b []byte, p int) int = int(b[p])*72057594037927936 + int(b[p+1])*281474976710656 + int(b[p+2])*1099511627776 + int(b[p+3])*4294967296 + int(b[p+4])*16777216 + int(b[p+5])*65536 + int(b[p+6])*256 + int(b[p+7])
 //@ spec isListKey(b []byte, table []byte, key []byte) bool = len(b) == 14+len(table)+len(key) && b[0] == ListType && be16(b,1) == len(table) && eqAt(b,3,table) && b[3+len(table)] == ':' && be16(b,4+len(table)) == len(key) && eqAt(b,6+len(table),key)
+//@ spec tkId(table []byte, key []byte) int
+//@ spec lKid(tk int, seq int64) int
 //@ func lEncodeListKey(table []byte, key []byte, seq int64) []byte
+//@   defines kid(result) == lKid(tkId(table, key), seq)
 //@   requires smallTK(table, key)
 //@   ensures isListKey(result, table, key) && fresh(result)
 //@   ensures be64(result, 6+len(table)+len(key)) == uint64(seq)
@@ -472,7 +475,7 @@ package rockredis
 // 1 <= len and head/tail inside the sequence window (store invariant maintained by lpush/lSetMeta, assumed here)
 //@ func (db *RockDB) lHeaderAndMeta(ts int64, key []byte, useLock bool) (collVerKeyInfo, int64, int64, int64, int64, error)
 //@   trusted reads the meta key through the engine
-//@   ensures result5 == nil ==> result0.OldHeader != nil
+//@   ensures result5 == nil ==> result0.OldHeader != nil && ghost(curtk, db) == tkId(result0.Table, result0.VerKey)
 //@   ensures result5 == nil && !(result0.Expired || result0.OldHeader.UserData == nil) ==> ghost(curexists, db) == 1 && result1 == ghost(curhead, db) && result3 == ghost(curlen, db) && result2 == result1 + result3 - 1 && result3 >= 1 && result1 >= listMinSeq && result2 <= listMaxSeq && smallTK(result0.Table, result0.VerKey)
 //@   ensures result5 != nil || result0.Expired || result0.OldHeader.UserData == nil ==> ghost(curexists, db) == 0
 //@ func (db *RockDB) lDelete(ts int64, key []byte, wb engine.WriteBatch) int64
@@ -482,8 +485,8 @@ package rockredis
 // ghost(commits, e) counts engine writes; ghost(cputs/cdels, e) are the batch counters handed to the last write
 //@ interface (github.com/youzan/ZanRedisDB/engine.KVEngine).Write func(e engine.KVEngine, wb engine.WriteBatch) error
 //@   ensures result != errTooMuchBatchSize
-//@   ensures ghost(commits, e) == old(ghost(commits, e)) + 1 && ghost(cputs, e) == ghost(wbputs, wb) && ghost(cdels, e) == ghost(wbdels, wb)
-//@   modifies ghost(commits, e), ghost(cputs, e), ghost(cdels, e)
+//@   ensures ghost(commits, e) == old(ghost(commits, e)) + 1 && ghost(cputs, e) == ghost(wbputs, wb) && ghost(cdels, e) == ghost(wbdels, wb) && ghost(cver, e) == ghost(wbver, wb)
+//@   modifies ghost(commits, e), ghost(cputs, e), ghost(cdels, e), ghost(cver, e)
 //@ func (db *RockDB) IncrTableKeyCount(table []byte, delta int64, wb engine.WriteBatch)
 //@   trusted table key counter (merge operand)
 //@   ensures ghost(tblcnt, db) == old(ghost(tblcnt, db)) + delta
@@ -512,7 +515,7 @@ package rockredis
 //@   ensures result == nil && ghost(curexists, db) == 1 ==> ghost(commits, db.rockEng) == old(ghost(commits, db.rockEng)) + 1
 //@   ensures ghost(wbputs, db.wb) == 0 && ghost(wbdels, db.wb) == 0
 //@   ensures ghost(curexists, db) == 1 && 1 <= len(key) && len(key) <= MaxKeySize && result != nil ==> ghost(commits, db.rockEng) == old(ghost(commits, db.rockEng)) + 1
-//@   modifies ghost(wbputs, _), ghost(wbdels, _), ghost(lmhead, db), ghost(lmtail, db), ghost(lmsets, db), ghost(ldeletes, db), ghost(commits, _), ghost(cputs, _), ghost(cdels, _), ghost(tblcnt, db), ghost(expdels, _), ghost(wbver, _)
+//@   modifies ghost(wbputs, _), ghost(wbdels, _), ghost(lmhead, db), ghost(lmtail, db), ghost(lmsets, db), ghost(ldeletes, db), ghost(commits, _), ghost(cputs, _), ghost(cdels, _), ghost(tblcnt, db), ghost(expdels, _), ghost(wbver, _), ghost(cver, _)
 //@   loop 1
 //@   invariant 0 <= i && i <= start
 //@   loop 2
@@ -536,9 +539,9 @@ package rockredis
 //@   ensures fresh(result)
 //@ func (r *RockDB) CommitBatchWrite() error
 //@   requires r != nil && r.wb != nil
-//@   ensures ghost(commits, r.rockEng) == old(ghost(commits, r.rockEng)) + 1 && ghost(cputs, r.rockEng) == old(ghost(wbputs, r.wb)) && ghost(cdels, r.rockEng) == old(ghost(wbdels, r.wb))
+//@   ensures ghost(commits, r.rockEng) == old(ghost(commits, r.rockEng)) + 1 && ghost(cputs, r.rockEng) == old(ghost(wbputs, r.wb)) && ghost(cdels, r.rockEng) == old(ghost(wbdels, r.wb)) && ghost(cver, r.rockEng) == old(ghost(wbver, r.wb))
 //@   ensures ghost(wbputs, r.wb) == 0 && ghost(wbdels, r.wb) == 0
-//@   modifies r.isBatching, ghost(commits, r.rockEng), ghost(cputs, r.rockEng), ghost(cdels, r.rockEng), ghost(wbputs, r.wb), ghost(wbdels, r.wb), ghost(wbver, r.wb)
+//@   modifies r.isBatching, ghost(commits, r.rockEng), ghost(cputs, r.rockEng), ghost(cdels, r.rockEng), ghost(wbputs, r.wb), ghost(wbdels, r.wb), ghost(wbver, r.wb), ghost(cver, r.rockEng)
 
 // the live length of the stored string: an expired value is dead (C10), an absent one is empty
 //@ spec kvLive(db *RockDB) int = ite(ghost(kvexpired, db) == 1, 0, ghost(kvlen, db))
@@ -554,7 +557,7 @@ package rockredis
 //@   ensures len(value) == 0 ==> result0 == kvLive(db)
 //@   ensures offset < 0 && len(value) > 0 ==> result1 != nil
 //@   ensures ghost(wbputs, db.wb) == 0 && ghost(wbdels, db.wb) == 0
-//@   modifies db.isBatching, ghost(commits, _), ghost(cputs, _), ghost(cdels, _), ghost(wbputs, _), ghost(wbdels, _), ghost(tblcnt, db), ghost(wbver, _)
+//@   modifies db.isBatching, ghost(commits, _), ghost(cputs, _), ghost(cdels, _), ghost(wbputs, _), ghost(wbdels, _), ghost(tblcnt, db), ghost(wbver, _), ghost(cver, _)
 
 // APPEND key value: the reply is the new length = live old length + len(value)
 //@ func (db *RockDB) Append(ts int64, rawKey []byte, value []byte) (int64, error)
@@ -564,7 +567,7 @@ package rockredis
 //@   ensures len(value) == 0 ==> result1 == nil && ghost(commits, db.rockEng) == old(ghost(commits, db.rockEng))
 //@   ensures len(value) == 0 ==> result0 == kvLive(db)
 //@   ensures ghost(wbputs, db.wb) == 0 && ghost(wbdels, db.wb) == 0
-//@   modifies db.isBatching, ghost(commits, _), ghost(cputs, _), ghost(cdels, _), ghost(wbputs, _), ghost(wbdels, _), ghost(tblcnt, db), ghost(wbver, _)
+//@   modifies db.isBatching, ghost(commits, _), ghost(cputs, _), ghost(cdels, _), ghost(wbputs, _), ghost(wbdels, _), ghost(tblcnt, db), ghost(wbver, _), ghost(cver, _)
 
 // GETRANGE normalisation (Redis): negative indexes count from the end, then both are clamped into [0, len-1]
 //@ func getRange(start int64, end int64, valLen int64) (int64, int64)
@@ -643,7 +646,7 @@ package rockredis
 //@   ensures result != errTooMuchBatchSize
 //@   ensures r.isBatching == 1 ==> result == nil && ghost(wbputs, r.wb) == old(ghost(wbputs, r.wb)) && ghost(wbdels, r.wb) == old(ghost(wbdels, r.wb)) && ghost(commits, r.rockEng) == old(ghost(commits, r.rockEng))
 //@   ensures r.isBatching != 1 ==> ghost(commits, r.rockEng) == old(ghost(commits, r.rockEng)) + 1 && ghost(cputs, r.rockEng) == old(ghost(wbputs, r.wb)) && ghost(cdels, r.rockEng) == old(ghost(wbdels, r.wb)) && ghost(wbputs, r.wb) == 0 && ghost(wbdels, r.wb) == 0
-//@   modifies ghost(commits, r.rockEng), ghost(cputs, r.rockEng), ghost(cdels, r.rockEng), ghost(wbputs, r.wb), ghost(wbdels, r.wb), ghost(wbver, r.wb)
+//@   modifies ghost(commits, r.rockEng), ghost(cputs, r.rockEng), ghost(cdels, r.rockEng), ghost(wbputs, r.wb), ghost(wbdels, r.wb), ghost(wbver, r.wb), ghost(cver, r.rockEng)
 
 // the stored size moves by exactly delta (never below 0); size 0 removes the size key, so a collection
 // exists iff it has at least one element. ghost(sizedelta, db) / ghost(newsize, db) record the last update
@@ -668,7 +671,7 @@ package rockredis
 //@   ensures result == nil && len(args) > 0 ==> ghost(newsize, db) >= ghost(sizedelta, db)
 //@   ensures result == errTooMuchBatchSize || len(args) == 0 ==> ghost(wbputs, db.wb) == old(ghost(wbputs, db.wb)) && ghost(wbdels, db.wb) == old(ghost(wbdels, db.wb)) && ghost(commits, db.rockEng) == old(ghost(commits, db.rockEng))
 //@   ensures len(args) > MAX_BATCH_NUM ==> result == errTooMuchBatchSize
-//@   modifies ghost(wbputs, _), ghost(wbdels, _), ghost(commits, _), ghost(cputs, _), ghost(cdels, _), ghost(misses, db), ghost(hits, db), ghost(sizedelta, db), ghost(newsize, db), ghost(tblcnt, db), alloftype(headerMetaValue), ghost(wbver, _)
+//@   modifies ghost(wbputs, _), ghost(wbdels, _), ghost(commits, _), ghost(cputs, _), ghost(cdels, _), ghost(misses, db), ghost(hits, db), ghost(sizedelta, db), ghost(newsize, db), ghost(tblcnt, db), alloftype(headerMetaValue), ghost(wbver, _), ghost(cver, _)
 //@   loop 1
 //@   invariant 0 <= i && i <= len(args) && num == ghost(misses, db) - old(ghost(misses, db)) && num >= 0 && num <= i && err == nil && (value == nil || (fresh(value) && disjoint(value, keyInfo.OldHeader.UserData)))
 //@   invariant (len(keyInfo.OldHeader.UserData) == 0 || len(keyInfo.OldHeader.UserData) == 8) && storedSize(keyInfo.OldHeader.UserData) >= 0 && storedSize(keyInfo.OldHeader.UserData) < 4611686018427387904
@@ -713,7 +716,7 @@ package rockredis
 //@   ensures result1 == nil ==> ghost(commits, db.rockEng) == old(ghost(commits, db.rockEng)) + 1
 //@   ensures len(args) > MAX_BATCH_NUM ==> result1 == errTooMuchBatchSize && ghost(commits, db.rockEng) == old(ghost(commits, db.rockEng))
 //@   ensures ghost(wbputs, db.wb) == 0 && ghost(wbdels, db.wb) == 0
-//@   modifies ghost(wbputs, _), ghost(wbdels, _), ghost(commits, _), ghost(cputs, _), ghost(cdels, _), ghost(misses, db), ghost(hits, db), ghost(sizedelta, db), ghost(newsize, db), ghost(tblcnt, db), alloftype(headerMetaValue), ghost(wbver, _)
+//@   modifies ghost(wbputs, _), ghost(wbdels, _), ghost(commits, _), ghost(cputs, _), ghost(cdels, _), ghost(misses, db), ghost(hits, db), ghost(sizedelta, db), ghost(newsize, db), ghost(tblcnt, db), alloftype(headerMetaValue), ghost(wbver, _), ghost(cver, _)
 //@   loop 1
 //@   invariant 0 <= i && i <= len(args) && num == ghost(misses, db) - old(ghost(misses, db)) && num >= 0 && num <= i && ghost(wbputs, wb) == num && ghost(wbdels, wb) == 0
 //@   invariant (len(oldh.UserData) == 0 || len(oldh.UserData) >= 8) && setSize(oldh.UserData) >= 0 && setSize(oldh.UserData) < 4611686018427387904
@@ -728,7 +731,7 @@ package rockredis
 //@   ensures len(args) == 0 ==> result0 == 0 && result1 == nil && ghost(commits, db.rockEng) == old(ghost(commits, db.rockEng))
 //@   ensures len(args) > MAX_BATCH_NUM ==> result1 == errTooMuchBatchSize && ghost(commits, db.rockEng) == old(ghost(commits, db.rockEng))
 //@   ensures ghost(wbputs, db.wb) == 0 && ghost(wbdels, db.wb) == 0
-//@   modifies ghost(wbputs, _), ghost(wbdels, _), ghost(commits, _), ghost(cputs, _), ghost(cdels, _), ghost(misses, db), ghost(hits, db), ghost(sizedelta, db), ghost(newsize, db), ghost(tblcnt, db), ghost(expdels, _), alloftype(headerMetaValue), ghost(wbver, _)
+//@   modifies ghost(wbputs, _), ghost(wbdels, _), ghost(commits, _), ghost(cputs, _), ghost(cdels, _), ghost(misses, db), ghost(hits, db), ghost(sizedelta, db), ghost(newsize, db), ghost(tblcnt, db), ghost(expdels, _), alloftype(headerMetaValue), ghost(wbver, _), ghost(cver, _)
 //@   loop 1
 //@   invariant 0 <= i && i <= len(args) && num == ghost(hits, db) - old(ghost(hits, db)) && num >= 0 && num <= i && ghost(wbdels, wb) == num && ghost(wbputs, wb) == 0
 //@   invariant (len(oldh.UserData) == 0 || len(oldh.UserData) >= 8) && setSize(oldh.UserData) >= 0 && setSize(oldh.UserData) < 4611686018427387904
@@ -740,7 +743,7 @@ package rockredis
 //@   ensures len(args) == 0 ==> result0 == 0 && result1 == nil
 //@   ensures result1 == errTooMuchBatchSize || len(args) == 0 ==> ghost(wbputs, db.wb) == old(ghost(wbputs, db.wb)) && ghost(wbdels, db.wb) == old(ghost(wbdels, db.wb)) && ghost(commits, db.rockEng) == old(ghost(commits, db.rockEng))
 //@   ensures len(args) > MAX_BATCH_NUM ==> result1 == errTooMuchBatchSize
-//@   modifies ghost(wbputs, _), ghost(wbdels, _), ghost(commits, _), ghost(cputs, _), ghost(cdels, _), ghost(misses, db), ghost(hits, db), ghost(sizedelta, db), ghost(newsize, db), ghost(tblcnt, db), ghost(expdels, _), alloftype(headerMetaValue), ghost(wbver, _)
+//@   modifies ghost(wbputs, _), ghost(wbdels, _), ghost(commits, _), ghost(cputs, _), ghost(cdels, _), ghost(misses, db), ghost(hits, db), ghost(sizedelta, db), ghost(newsize, db), ghost(tblcnt, db), ghost(expdels, _), alloftype(headerMetaValue), ghost(wbver, _), ghost(cver, _)
 //@   loop 1
 //@   invariant 0 <= i && i <= len(args) && num == ghost(hits, db) - old(ghost(hits, db)) && num >= 0 && num <= i
 //@   invariant (len(oldh.UserData) == 0 || len(oldh.UserData) == 8) && storedSize(oldh.UserData) >= 0 && storedSize(oldh.UserData) < 4611686018427387904
@@ -829,7 +832,7 @@ package rockredis
 //@   ensures len(args) == 0 ==> result0 == 0 && result1 == nil && ghost(commits, db.rockEng) == old(ghost(commits, db.rockEng))
 //@   ensures len(args) > MAX_BATCH_NUM ==> result1 == errTooMuchBatchSize && ghost(commits, db.rockEng) == old(ghost(commits, db.rockEng))
 //@   ensures ghost(wbputs, db.wb) == 0 && ghost(wbdels, db.wb) == 0
-//@   modifies ghost(wbputs, _), ghost(wbdels, _), ghost(wbver, _), ghost(commits, _), ghost(cputs, _), ghost(cdels, _), ghost(misses, db), ghost(hits, db), ghost(sizedelta, db), ghost(newsize, db), ghost(tblcnt, db), alloftype(headerMetaValue)
+//@   modifies ghost(wbputs, _), ghost(wbdels, _), ghost(wbver, _), ghost(commits, _), ghost(cputs, _), ghost(cdels, _), ghost(misses, db), ghost(hits, db), ghost(sizedelta, db), ghost(newsize, db), ghost(tblcnt, db), alloftype(headerMetaValue), ghost(cver, _)
 //@   loop 1
 //@   invariant 0 <= i && i <= len(args) && num == ghost(misses, db) - old(ghost(misses, db)) && num >= 0 && num <= i
 //@   invariant (len(keyInfo.OldHeader.UserData) == 0 || len(keyInfo.OldHeader.UserData) >= 8) && setSize(keyInfo.OldHeader.UserData) >= 0 && setSize(keyInfo.OldHeader.UserData) < 4611686018427387904
@@ -842,7 +845,7 @@ package rockredis
 //@   ensures len(members) == 0 ==> result0 == 0 && result1 == nil && ghost(commits, db.rockEng) == old(ghost(commits, db.rockEng))
 //@   ensures len(members) > MAX_BATCH_NUM ==> result1 == errTooMuchBatchSize && ghost(commits, db.rockEng) == old(ghost(commits, db.rockEng))
 //@   ensures ghost(wbputs, db.wb) == 0 && ghost(wbdels, db.wb) == 0
-//@   modifies ghost(wbputs, _), ghost(wbdels, _), ghost(wbver, _), ghost(commits, _), ghost(cputs, _), ghost(cdels, _), ghost(misses, db), ghost(hits, db), ghost(sizedelta, db), ghost(newsize, db), ghost(tblcnt, db), ghost(expdels, _), alloftype(headerMetaValue)
+//@   modifies ghost(wbputs, _), ghost(wbdels, _), ghost(wbver, _), ghost(commits, _), ghost(cputs, _), ghost(cdels, _), ghost(misses, db), ghost(hits, db), ghost(sizedelta, db), ghost(newsize, db), ghost(tblcnt, db), ghost(expdels, _), alloftype(headerMetaValue), ghost(cver, _)
 //@   loop 1
 //@   invariant 0 <= i && i <= len(members) && num == ghost(hits, db) - old(ghost(hits, db)) && num >= 0 && num <= i && ghost(wbdels, wb) == 2 * num && ghost(wbputs, wb) == 0
 //@   invariant (len(keyInfo.OldHeader.UserData) == 0 || len(keyInfo.OldHeader.UserData) >= 8) && setSize(keyInfo.OldHeader.UserData) >= 0 && setSize(keyInfo.OldHeader.UserData) < 4611686018427387904
@@ -868,7 +871,7 @@ package rockredis
 //@   ensures result1 == nil && len(args) > 0 ==> ghost(commits, db.rockEng) == old(ghost(commits, db.rockEng)) + 1 && ghost(cputs, db.rockEng) == len(args) + 1 && ghost(cdels, db.rockEng) == 0
 //@   ensures len(args) == 0 && result1 == nil ==> result0 == ghost(lpsize, db) && ghost(commits, db.rockEng) == old(ghost(commits, db.rockEng))
 //@   ensures ghost(wbputs, db.wb) == 0 && ghost(wbdels, db.wb) == 0
-//@   modifies ghost(wbputs, _), ghost(wbdels, _), ghost(wbver, _), ghost(commits, _), ghost(cputs, _), ghost(cdels, _), ghost(misses, db), ghost(hits, db), ghost(lmhead, db), ghost(lmtail, db), ghost(lmsets, db), ghost(tblcnt, db), alloftype(headerMetaValue)
+//@   modifies ghost(wbputs, _), ghost(wbdels, _), ghost(wbver, _), ghost(commits, _), ghost(cputs, _), ghost(cdels, _), ghost(misses, db), ghost(hits, db), ghost(lmhead, db), ghost(lmtail, db), ghost(lmsets, db), ghost(tblcnt, db), alloftype(headerMetaValue), ghost(cver, _)
 //@   loop 1
 //@   invariant 0 <= i && i <= pushCnt && pushCnt == len(args) && ghost(wbputs, wb) == i && ghost(wbdels, wb) == 0 && ghost(lmsets, db) == old(ghost(lmsets, db)) && ghost(commits, db.rockEng) == old(ghost(commits, db.rockEng))
 
@@ -883,4 +886,35 @@ package rockredis
 //@   ensures result1 == nil && result0 == nil ==> ghost(commits, db.rockEng) == old(ghost(commits, db.rockEng))
 //@   ensures ghost(curexists, db) == 0 && 1 <= len(key) && len(key) <= MaxKeySize ==> result0 == nil && ghost(commits, db.rockEng) == old(ghost(commits, db.rockEng))
 //@   ensures ghost(wbputs, db.wb) == 0 && ghost(wbdels, db.wb) == 0
-//@   modifies ghost(wbputs, _), ghost(wbdels, _), ghost(wbver, _), ghost(commits, _), ghost(cputs, _), ghost(cdels, _), ghost(misses, db), ghost(hits, db), ghost(lmhead, db), ghost(lmtail, db), ghost(lmsets, db), ghost(tblcnt, db), ghost(expdels, _)
+//@   modifies ghost(wbputs, _), ghost(wbdels, _), ghost(wbver, _), ghost(commits, _), ghost(cputs, _), ghost(cdels, _), ghost(misses, db), ghost(hits, db), ghost(lmhead, db), ghost(lmtail, db), ghost(lmsets, db), ghost(tblcnt, db), ghost(expdels, _), ghost(cver, _)
+
+// the element position a Redis list index denotes: index >= 0 counts from the head, index < 0 from the tail
+//@ spec lSeq(head int, llen int, index int) int = ite(index >= 0, head + index, head + llen + index)
+//@ spec lInside(head int, llen int, index int) bool = lSeq(head, llen, index) >= head && lSeq(head, llen, index) < head + llen
+//@ func (r *RockDB) GetBytes(key []byte) ([]byte, error)
+//@   trusted engine point read
+//@   ensures ghost(reads, r) == old(ghost(reads, r)) + 1
+//@   ghostset ghost(lastread, r) := kid(key)
+//@   modifies ghost(reads, r), ghost(lastread, r)
+
+// LSET: an index inside the list overwrites exactly that element (its put is in the committed batch, plus the
+// meta rewrite, one commit); any other index is errListIndex and writes nothing
+//@ func (db *RockDB) LSet(ts int64, key []byte, index int64, value []byte) error
+//@   trusted nooverflow head+index wraps for |index| near 2^63; the wrapped value is negative, hence out of range, which is the right answer
+//@   requires db != nil && db.wb != nil && ghost(wbputs, db.wb) == 0 && ghost(wbdels, db.wb) == 0
+//@   ensures ghost(curexists, db) == 1 && 1 <= len(key) && len(key) <= MaxKeySize && !lInside(ghost(curhead, db), ghost(curlen, db), index) ==> result == errListIndex && ghost(commits, db.rockEng) == old(ghost(commits, db.rockEng))
+//@   ensures ghost(curexists, db) == 0 && 1 <= len(key) && len(key) <= MaxKeySize ==> result != nil && ghost(commits, db.rockEng) == old(ghost(commits, db.rockEng))
+//@   ensures result == nil ==> ghost(curexists, db) == 1 && lInside(ghost(curhead, db), ghost(curlen, db), index) && ghost(commits, db.rockEng) == old(ghost(commits, db.rockEng)) + 1 && ghost(cputs, db.rockEng) == 2 && ghost(cdels, db.rockEng) == 0
+//@   ensures result == nil ==> ghost(lmhead, db) == ghost(curhead, db) && ghost(lmtail, db) == ghost(curhead, db) + ghost(curlen, db) - 1
+//@   ensures result == nil ==> bst(db.wb, ghost(cver, db.rockEng), lKid(ghost(curtk, db), lSeq(ghost(curhead, db), ghost(curlen, db), index))) == 1
+//@   ensures ghost(wbputs, db.wb) == 0 && ghost(wbdels, db.wb) == 0
+//@   modifies db.isBatching, ghost(wbputs, _), ghost(wbdels, _), ghost(wbver, _), ghost(commits, _), ghost(cputs, _), ghost(cdels, _), ghost(cver, _), ghost(lmhead, db), ghost(lmtail, db), ghost(lmsets, db)
+
+// LINDEX: reads exactly the element position the index denotes, or nothing when the index is outside the list
+//@ func (db *RockDB) LIndex(key []byte, index int64) ([]byte, error)
+//@   trusted nooverflow as for LSet
+//@   requires db != nil
+//@   ensures ghost(curexists, db) == 1 && !lInside(ghost(curhead, db), ghost(curlen, db), index) ==> result0 == nil && ghost(reads, db) == old(ghost(reads, db))
+//@   ensures ghost(curexists, db) == 0 ==> result0 == nil && ghost(reads, db) == old(ghost(reads, db))
+//@   ensures ghost(reads, db) != old(ghost(reads, db)) ==> ghost(reads, db) == old(ghost(reads, db)) + 1 && ghost(lastread, db) == lKid(ghost(curtk, db), lSeq(ghost(curhead, db), ghost(curlen, db), index))
+//@   modifies ghost(reads, db), ghost(lastread, db)
